@@ -118,10 +118,17 @@ def lin(e, atoms):
 
 def improvement_form(test, atoms):
     """Return ('lt'|'le', linear form of rhs-lhs) for `lhs < rhs`-like tests."""
+    negated = False
+    while isinstance(test, ast.UnaryOp) and isinstance(test.op, ast.Not):
+        negated = not negated
+        test = test.operand
     if not (isinstance(test, ast.Compare) and len(test.ops) == 1):
         raise Unknown(ast.unparse(test))
     op = test.ops[0]
     l, r = test.left, test.comparators[0]
+    if negated:
+        # on real numbers: not (a >= b) == a < b, etc.
+        op = {ast.Gt: ast.LtE, ast.GtE: ast.Lt, ast.Lt: ast.GtE, ast.LtE: ast.Gt}.get(type(op), type(None))()
     if isinstance(op, (ast.Gt, ast.GtE)):
         l, r = r, l
         strict = isinstance(op, ast.Gt)
